@@ -308,7 +308,17 @@ def asym_gate(rng, dims, G, gclass, unitary):
 
 def dense_of(tn, outs):
     """independent dense form (einsum over the dumped arrays), flattened over `outs`"""
-    return tm.np_dense(tm.qtn_tensors(tn), outs, float(tn.exponent)).reshape(-1)
+    ts = tm.qtn_tensors(tn)
+    labels = {i for inds, _ in ts for i in inds}
+    if len(labels) <= 18:
+        return tm.np_dense(ts, outs, float(tn.exponent)).reshape(-1)
+    # many labels (operator networks with lazily attached operator networks): same einsum, pairwise instead of
+    # one joint loop over all labels
+    namer = tm.Namer()
+    args = []
+    for inds, arr in ts:
+        args += [np.asarray(arr), [namer(i) for i in inds]]
+    return (np.einsum(*args, [namer(o) for o in outs], optimize="greedy") * (10.0 ** float(tn.exponent))).reshape(-1)
 
 
 # ----------------------------------------------------------------------------
@@ -1250,6 +1260,70 @@ def naming_case(ctx, col, n):
         ctx.violation(f"{keyp}:value", f"dense(after) != (operator on sites {list(map(str, where))}) @ dense(before)", desc)
 
 
+def op_lazy_stream(ctx):
+    """the operator handed over as a NETWORK (sub-operator on the target sites, or an operator of matching structure):
+    gate_with_op_lazy / apply on vectors, gate_{upper,lower,sandwich}_with_op_lazy / apply on operators, with
+    transpose / dagger / contract / inplace.  Oracle: dense matrices (1e-9, a test).  Sub-operators covering fewer
+    sites are only drawn for vectors: for operator targets the documentation asks for matching structure."""
+    import quimb.tensor as qtn
+
+    TF = (False, True)
+    for n in range(ctx.n(6, 120)):
+        rng = random.Random(f"{ctx.seed}:oplazy:{n}")
+        st = build_weak_mpo(rng, None)
+        X, sites, phys = st["tn"], st["sites"], st["phys"]
+        L = len(sites)
+        dl = [phys[s_] for s_ in sites]
+        D = int(np.prod(dl))
+        A = qtn.MPO_rand(L, 2, phys_dim=2, seed=rng.randint(0, 10**6))
+        pm = {}
+        for s_ in sites:
+            pm[A.upper_ind(s_)] = pm[A.lower_ind(s_)] = phys[s_]
+        refill(A, rng, True, lambda ix: pm.get(ix, 2))
+        psi = qtn.MPS_rand_state(L, 2, seed=rng.randint(0, 10**6))
+        refill(psi, rng, rng.random() < 0.5, lambda ix: phys[int(ix[1:])] if ix.startswith("k") else 2)
+        ul = tuple(X.upper_ind(s_) for s_ in sites) + tuple(X.lower_ind(s_) for s_ in sites)
+        ks = tuple(psi.site_ind(s_) for s_ in sites)
+        Ad = dense_of(A, ul).reshape(D, D)
+        Xd = dense_of(X, ul).reshape(D, D)
+        xd = dense_of(psi, ks)
+        # a sub-operator on some of the sites, any order
+        where = pick_where(rng, sites, k=rng.choice([1, 2, 2, 3]))
+        dims = [phys[s_] for s_ in where]
+        G, gclass, _ = asym_gate(rng, dims, *build_gate(rng, dims, gclass="gauss"))
+        sub = qtn.MatrixProductOperator.from_dense(G, dims=dims, sites=where, L=L, cutoff=0.0)
+        pos = [sites.index(s_) for s_ in where]
+        base = {"stream": "oplazy", "n": n, "phys": dl, "where": list(where)}
+
+        def run(api, desc, obj, call, outs, want, ip):
+            _opt_call(ctx, api, {**base, **desc, "api": api}, obj, call, ip, outs, want, f"{api}:options:" +
+                      ":".join(f"{k}={v}" for k, v in desc.items() if k != "inplace"))
+
+        for tr, ip in itertools.product(TF, TF):
+            run("gate_with_op_lazy", {"operator": "matching", "transpose": tr, "inplace": ip}, psi.copy(),
+                lambda t, tr=tr, ip=ip: t.gate_with_op_lazy(A, transpose=tr, inplace=ip), ks, (Ad.T if tr else Ad) @ xd, ip)
+            run("gate_with_op_lazy", {"operator": "sub", "transpose": tr, "inplace": ip}, psi.copy(),
+                lambda t, tr=tr, ip=ip: t.gate_with_op_lazy(sub, transpose=tr, inplace=ip), ks,
+                apply_on_axes(G.T if tr else G, dl, pos, xd), ip)
+            run("gate_upper_with_op_lazy", {"transpose": tr, "inplace": ip}, X.copy(),
+                lambda t, tr=tr, ip=ip: t.gate_upper_with_op_lazy(A, transpose=tr, inplace=ip), ul,
+                ((Ad.T if tr else Ad) @ Xd).reshape(-1), ip)
+            run("gate_lower_with_op_lazy", {"transpose": tr, "inplace": ip}, X.copy(),
+                lambda t, tr=tr, ip=ip: t.gate_lower_with_op_lazy(A, transpose=tr, inplace=ip), ul,
+                (Xd @ (Ad.T if tr else Ad)).reshape(-1), ip)
+            run("gate_sandwich_with_op_lazy", {"dagger": tr, "inplace": ip}, X.copy(),
+                lambda t, tr=tr, ip=ip: t.gate_sandwich_with_op_lazy(A, dagger=tr, inplace=ip), ul,
+                ((Ad.conj().T @ Xd @ Ad) if tr else (Ad @ Xd @ Ad.conj().T)).reshape(-1), ip)
+        for ct in TF:
+            # apply: `inplace` consumes the OPERATOR that acts, the target is never modified
+            run("apply", {"target": "vector", "operator": "matching", "contract": ct, "inplace": False}, psi.copy(),
+                lambda t, ct=ct: A.apply(t, contract=ct), ks, Ad @ xd, False)
+            run("apply", {"target": "vector", "operator": "sub", "contract": ct, "inplace": False}, psi.copy(),
+                lambda t, ct=ct: sub.apply(t, contract=ct), ks, apply_on_axes(G, dl, pos, xd), False)
+            run("apply", {"target": "operator", "operator": "matching", "contract": ct, "inplace": False}, X.copy(),
+                lambda t, ct=ct: A.apply(t, contract=ct), ul, (Ad @ Xd).reshape(-1), False)
+
+
 def build_weak_mpo(rng, eps):
     """integer / dyadic open MPO, L 3-5, mixed physical dims; eps: operator-Schmidt values (1, ~eps, ..) across every bond"""
     import quimb.tensor as qtn
@@ -1921,6 +1995,19 @@ def coq_stage(ctx, col):
     settle(ctx, col, "all")
 
 
+def timed(name, fn):
+    import time
+
+    def w(ctx, *a):
+        t0 = time.time()
+        try:
+            return fn(ctx, *a)
+        finally:
+            ctx.extra["py_wall_s_" + name] = round(time.time() - t0, 1)
+    w.__name__ = fn.__name__
+    return w
+
+
 def run(ctx):
     ctx.extra["rule"] = RULE
     ctx.trusted_base += [
@@ -1948,8 +2035,9 @@ def run(ctx):
                      "C06/Exec.vo", "C06/Props.v"])
     col = Collector()
     ctx.stage(flag_stream)
-    ctx.stage(options_stream, col)
+    ctx.stage(timed("options", options_stream), col)
     ctx.stage(nonlocal_cutoff_stream)
+    ctx.stage(timed("op_lazy", op_lazy_stream))
     ctx.stage(exact_stream, col)
     ctx.stage(oracle_stream, col)
     ctx.stage(coq_stage, col)
